@@ -93,16 +93,16 @@ def check_sem(prop, tier, replay, selftest, mc=_sem_mc):
             recs[gl] = json.loads(tr["lines"][gl - 1])
         rec = recs[gl]
         if t[0] == "INFO":
-            ncalls += len(rec["calls"])
+            ncalls += len(rec["calls"]) + sum(t["runs"] for t in rec.get("trees", []))
             if t[3]:
                 nontriv.add(rec["text"])
         elif t[0] == "MISMATCH" and t[3] == prop:
-            bad = [c for c in rec["calls"] if c["c"] == t[4] and c["b"] == t[5] and c["h"] == t[6]]
+            bad = [c for c in rec["calls"] + rec.get("trees", []) if c["c"] == t[4] and c["b"] == t[5] and c["h"] == t[6]]
             payload = {"property": prop, "component": "sem", "record": dict(rec, calls=bad or rec["calls"]),
                        "mismatch": t, "how": "./check %s --replay <this file>" % prop}
             res.violation("%s_%s_%s_%s" % (rec["id"], t[4], t[5], t[6]), payload,
                           "%s: %s/%s/%s on %s observed %s" % (prop, t[4], t[5], t[6], rec["text"],
-                                                              json.dumps([(c["st"], c["r"], c.get("ch")) for c in bad])[:300]))
+                                                              json.dumps([(c["st"], c.get("r", c.get("results")), c.get("ch")) for c in bad])[:300]))
     res.evaluations = ncalls
     res.distinct = nontriv
     res.rule = SEM_RULE
@@ -112,3 +112,34 @@ def check_sem(prop, tier, replay, selftest, mc=_sem_mc):
     res.assumptions = ["TLC evaluates AdfSem correctly", "the harness logs the answers the library returned (binding self-test: --selftest)",
                        "a hang is detected by a 20 s wall-clock budget per call (heuristic-call budget 4*3^n for custom heuristics)"]
     return res.finish()
+
+
+def _c04_mc(prop, tier, res):
+    res.add_mc(require_mc(tlc_mc("CountSearch", "CountSearch_n2_TRUE.cfg", workers=8, timeout=600)))
+    if tier == "thorough":
+        res.add_mc(require_mc(tlc_mc("CountSearch", "CountSearch_n3s_TRUE.cfg", workers=12, timeout=1800)))
+
+
+@register("C04")
+def check_c04(prop, tier, replay, selftest):
+    if selftest:
+        # fidelity of the transcription: the unrepaired loop must rediscover the lost-model defect
+        r = tlc_mc("CountSearch", "CountSearch_n3s_FALSE.cfg", workers=12, timeout=900)
+        ok = (r["violation"] is not None and "Exact" in r["violation"])
+        print("SELFTEST C04 model: unrepaired transcription %s the lost-model defect" % ("rediscovers" if ok else "DOES NOT rediscover"))
+        if not ok:
+            return 2
+    return check_sem(prop, tier, replay, selftest, mc=_c04_mc)
+
+
+def _c05_mc(prop, tier, res):
+    res.add_mc(require_mc(tlc_mc("NgSearch", "NgSearch_n2.cfg", workers=8, timeout=600)))
+    res.add_mc(require_mc(tlc_mc("NgSearch", "NgSearch_n2_tv.cfg", workers=8, timeout=600)))
+    res.add_mc(require_mc(tlc_mc("NgSearch", "NgSearch_n2_live.cfg", workers=8, timeout=600)))
+    if tier == "thorough":
+        res.add_mc(require_mc(tlc_mc("NgSearch", "NgSearch_n3s.cfg", workers=12, timeout=3600)))
+
+
+@register("C05")
+def check_c05(prop, tier, replay, selftest):
+    return check_sem(prop, tier, replay, selftest, mc=_c05_mc)
